@@ -260,8 +260,9 @@ package reflect
 //@   ensures r == isBin(t)
 
 //@ func decodeStringNoCopy(t *tType, b []byte, p unsafe.Pointer) (i int, err error)
-//@   ghost wt Int
+//@   ghost wt Int, nc Bool
 //@   requires c03_wt: t.WT == wt
+//@   requires c14_dispatch: nc
 //@   requires wfT(t) && t.WT == tSTRING && p != nil
 //@   requires c14_region: len(b) > 0 ==> b.ptr >= 65536
 //@   modifies M[p : p+24]
@@ -271,6 +272,7 @@ package reflect
 //@   ensures c14_limit: len(b) >= 4 && old(strLen(M, b.ptr)) > len(b) - 4 ==> err != nil && M == old(M)
 //@   ensures c14_zero: len(b) >= 4 && old(strLen(M, b.ptr)) == 0 ==> err == nil && i == 4 && ld64(p+8) == 0
 //@        && (isBin(t) ==> ld64(p) == zerobase() && ld64(p+16) == 0) && (!isBin(t) ==> ld64(p) == 0)
+//@   ensures c14_zero_outside: len(b) >= 4 && old(strLen(M, b.ptr)) == 0 && err == nil ==> !(b.ptr <= ld64(p) && ld64(p) < b.ptr + len(b))
 //@   ensures c14_view: len(b) >= 4 && 0 < old(strLen(M, b.ptr)) && old(strLen(M, b.ptr)) <= len(b) - 4 ==> err == nil && i == 4 + old(strLen(M, b.ptr))
 //@        && ld64(p) == b.ptr + 4 && ld64(p+8) == old(strLen(M, b.ptr)) && (isBin(t) ==> ld64(p+16) == old(strLen(M, b.ptr)))
 //@   ensures c14_hdronly: !isBin(t) ==> forall a Int :: {M[a]} p + 16 <= a && a < p + 24 ==> M[a] == old(M[a])
@@ -300,6 +302,8 @@ package reflect
 //@   call decodeType ghost lvl = lvl + 1
 //@   call decodeType ghost wt = tp
 //@   call decodeStringNoCopy ghost wt = tp
+//@   call decodeStringNoCopy ghost nc = f.NoCopy
+//@   call decodeType ghost nc = f.NoCopy
 //@   entry ghost $seen = allfalse()
 //@   entry ghost $skn = 0
 //@   entry ghost $skoff = allzero()
@@ -344,8 +348,9 @@ package reflect
 
 //@ func (d *tDecoder) decodeType(t *tType, b []byte, p unsafe.Pointer, maxdepth int) (n int, err error)
 //@   requires d != nil && spanInv(&d.s) && wfT(t) && p != nil && 0 <= maxdepth && len(b) <= MAXIN
-//@   ghost lvl Int, wt Int
+//@   ghost lvl Int, wt Int, nc Bool
 //@   requires c03_wt: t.WT == wt
+//@   requires c14_dispatch: !nc
 //@   requires c11_inbelow: b.ptr + len(b) <= $brk
 //@   requires c14_region: len(b) > 0 ==> b.ptr >= 65536
 //@   ensures c06_str0: err == nil && t.T == tSTRING && maxdepth != 0 && old(strLen(M, b.ptr)) == 0 ==> n == 4 && ld64(p+8) == 0
@@ -357,6 +362,7 @@ package reflect
 //@   requires c15_budget: maxdepth >= maxDepthLimit + 3 - 2*lvl
 //@   decreases maxdepth
 //@   call decodeType ghost lvl = lvl + 1
+//@   call decodeType ghost nc = false
 //@   call decodeType#0 ghost wt = t0
 //@   call decodeType#1 ghost wt = t1
 //@   call decodeType#2 ghost wt = tp
